@@ -236,7 +236,7 @@ pub fn tree_walker(
                 target_base.clone()
             };
 
-            if config.no_clobber && target.exists() {
+            if config.no_clobber && exists_nofollow(&target)? {
                 let msg = "Destination file exists and --no-clobber is set.";
                 stats.send(StatusUpdate::Error(
                     XcpError::DestinationExists(msg, target)))?;
@@ -291,6 +291,16 @@ pub fn tree_walker(
 fn is_dir(path: &Path) -> Result<bool> {
     match path.metadata() {
         Ok(meta) => Ok(meta.is_dir()),
+        Err(e) if e.kind() == io::ErrorKind::NotFound => Ok(false),
+        Err(e) => Err(e.into()),
+    }
+}
+
+/// Whether anything exists at the path, without following a final
+/// symlink (so a dangling link counts as existing).
+fn exists_nofollow(path: &Path) -> Result<bool> {
+    match path.symlink_metadata() {
+        Ok(_) => Ok(true),
         Err(e) if e.kind() == io::ErrorKind::NotFound => Ok(false),
         Err(e) => Err(e.into()),
     }
